@@ -41,3 +41,45 @@ Definition check_bytes (c : bytes_case) : bool :=
      | Some s => true
      | None => true
      end.
+
+(* ---- the document itself (stream c09_document).  A case: the input graph, and what the real
+   document says about its objects table, in the order of the table: which input object an entry
+   describes (found through the entry's first "paths" item), its refcount and its paths. *)
+From Fiddle Require Import Doc.
+Record doc_case := mkdoc { d_env : sigenv; d_heap : heap; d_root : ref;
+                           d_entries : list (nat * (nat * list path)) }.
+
+Definition path_list_eq_dec : forall a b : list path, {a = b} + {a <> b} := list_eq_dec path_eq_dec.
+
+Definition heap_ref_eqb (a b : option (heap * ref)) : bool :=
+  match a, b with
+  | Some (h1, r1), Some (h2, r2) =>
+      (if heap_eq_dec h1 h2 then true else false) && (if ref_eq_dec r1 r2 then true else false)
+  | _, _ => false
+  end.
+
+Definition check_doc (c : doc_case) : bool :=
+  let e := d_env c in let h := d_heap c in let r := d_root c in
+  wf_b e h &&
+  match ser e h r with
+  | Some (d, rd) =>
+      (* one entry per written object, in the order of the table *)
+      Nat.eqb (length d) (length (d_entries c))
+      && (if list_eq_dec Nat.eq_dec (filter (fun i => match doc_index e h r i with Some _ => true | None => false end)
+                                            (doc_order e h r))
+                         (map fst (d_entries c)) then true else false)
+      && forallb (fun ke => let '(k, (i, (rc, ps))) := ke in
+                            match doc_index e h r i with Some k' => Nat.eqb k k' | None => false end
+                            && Nat.eqb rc (doc_refcount e h r i)
+                            && (if path_list_eq_dec ps (paths_to e h (S (length h)) r i) then true else false))
+                 (combine (nat_seq 0%nat (length (d_entries c))) (d_entries c))
+      (* loading the document and writing it again gives the same document *)
+      && heap_ref_eqb (ser e d rd) (Some (d, rd))
+      && heap_ref_eqb (redump e h r) (Some (d, rd))
+  | None => false
+  end.
+
+Definition explain_doc (c : doc_case) :=
+  (ser (d_env c) (d_heap c) (d_root c), doc_order (d_env c) (d_heap c) (d_root c),
+   map (fun i => (doc_index (d_env c) (d_heap c) (d_root c) i, doc_refcount (d_env c) (d_heap c) (d_root c) i))
+       (map fst (d_entries c))).
